@@ -95,7 +95,10 @@ def tlc(ctx, module, cfg, workers=None, timeout=1800, env=None, extra=None, tag=
     meta = tempfile.mkdtemp(prefix="meta-", dir=ctx.scratch)
     cmd = ["timeout", str(timeout), "tlc", "-workers", str(workers or min(NCPU, 8)), "-metadir", meta,
            "-config", cfg] + (extra or []) + [module + ".tla"]
-    e = {"JAVA_TOOL_OPTIONS": os.environ.get("JAVA_TOOL_OPTIONS", "")}
+    # TLC unpacks its standard modules into java.io.tmpdir on every run and leaves them there: keep that inside the scratch
+    jtmp = os.path.join(ctx.scratch, "jtmp")
+    os.makedirs(jtmp, exist_ok=True)
+    e = {"JAVA_TOOL_OPTIONS": (os.environ.get("JAVA_TOOL_OPTIONS", "") + " -Djava.io.tmpdir=" + jtmp).strip()}
     if env:
         e.update(env)
     rc, out = run(cmd, env=e, cwd=d)
